@@ -326,7 +326,8 @@ Record eobj := {
 (* perform_encrypt: returns the final protected header, recipients and segments *)
 Record eout := {
   x_prot : dict; x_recips : list recip; x_aadseg : bytes;
-  x_iv : bytes; x_ct : bytes; x_tag : bytes
+  x_iv : bytes; x_ct : bytes; x_tag : bytes;
+  x_cek : bytes; x_b64prot : bytes      (* not serialized: the CEK and the encoded protected header *)
 }.
 
 Definition perform_encrypt (g : registry) (o : eobj) (d : edraw) : res eout :=
@@ -341,7 +342,8 @@ Definition perform_encrypt (g : registry) (o : eobj) (d : edraw) : res eout :=
   let aad := aad_of (e_ser o) b64p (e_aad o) in
   do ctag <- enc_encrypt O e m cek iv aad;
   do rs <- post_loop e (e_ser o) prot (e_unprot o) cek (snd ctag) acc;
-  Ok {| x_prot := prot; x_recips := rs; x_aadseg := aad; x_iv := iv; x_ct := fst ctag; x_tag := snd ctag |}.
+  Ok {| x_prot := prot; x_recips := rs; x_aadseg := aad; x_iv := iv; x_ct := fst ctag; x_tag := snd ctag;
+        x_cek := cek; x_b64prot := b64p |}.
 
 (* represent_compact *)
 Definition represent_compact (x : eout) : res bytes :=
